@@ -2390,6 +2390,13 @@ def _fn_ast(  # pylint: disable=too-many-locals,too-many-statements
         )
 
 
+def _analyze_value_form(form: ReaderForm, ctx: AnalyzerContext) -> Node:
+    """Analyze a child form whose value its parent needs (a binding init, the target of
+    a host call) whatever syntactic position the parent itself is in."""
+    with ctx.expr_pos():
+        return _analyze_form(form, ctx)
+
+
 def _host_call_ast(form: ISeq, ctx: AnalyzerContext) -> HostCall:
     assert isinstance(form.first, sym.Symbol)
 
@@ -2406,7 +2413,7 @@ def _host_call_ast(form: ISeq, ctx: AnalyzerContext) -> HostCall:
     return HostCall(
         form=form,
         method=method.name[1:],
-        target=_analyze_form(runtime.nth(form, 1), ctx),
+        target=_analyze_value_form(runtime.nth(form, 1), ctx),
         args=args,
         kwargs=kwargs,
         env=ctx.get_node_env(pos=ctx.syntax_position),
@@ -2445,7 +2452,7 @@ def _host_prop_ast(form: ISeq, ctx: AnalyzerContext) -> HostField:
         return HostField(
             form=form,
             field=field.name,
-            target=_analyze_form(runtime.nth(form, 1), ctx),
+            target=_analyze_value_form(runtime.nth(form, 1), ctx),
             is_assignable=True,
             env=ctx.get_node_env(pos=ctx.syntax_position),
         )
@@ -2459,7 +2466,7 @@ def _host_prop_ast(form: ISeq, ctx: AnalyzerContext) -> HostField:
         return HostField(
             form=form,
             field=field.name[2:],
-            target=_analyze_form(runtime.nth(form, 1), ctx),
+            target=_analyze_value_form(runtime.nth(form, 1), ctx),
             is_assignable=True,
             env=ctx.get_node_env(pos=ctx.syntax_position),
         )
@@ -2485,7 +2492,7 @@ def _host_interop_ast(form: ISeq, ctx: AnalyzerContext) -> HostCall | HostField:
             return HostField(
                 form=form,
                 field=maybe_m_or_f.name[1:],
-                target=_analyze_form(runtime.nth(form, 1), ctx),
+                target=_analyze_value_form(runtime.nth(form, 1), ctx),
                 is_assignable=True,
                 env=ctx.get_node_env(pos=ctx.syntax_position),
             )
@@ -2494,7 +2501,7 @@ def _host_interop_ast(form: ISeq, ctx: AnalyzerContext) -> HostCall | HostField:
             return HostCall(
                 form=form,
                 method=maybe_m_or_f.name,
-                target=_analyze_form(runtime.nth(form, 1), ctx),
+                target=_analyze_value_form(runtime.nth(form, 1), ctx),
                 args=args,
                 kwargs=kwargs,
                 env=ctx.get_node_env(pos=ctx.syntax_position),
@@ -2511,7 +2518,7 @@ def _host_interop_ast(form: ISeq, ctx: AnalyzerContext) -> HostCall | HostField:
         return HostCall(
             form=form,
             method=method.name.removeprefix("-"),
-            target=_analyze_form(runtime.nth(form, 1), ctx),
+            target=_analyze_value_form(runtime.nth(form, 1), ctx),
             args=args,
             kwargs=kwargs,
             env=ctx.get_node_env(pos=ctx.syntax_position),
@@ -2877,7 +2884,7 @@ def _let_ast(form: ISeq, ctx: AnalyzerContext) -> Let:
                 name=name.name,
                 local=LocalType.LET,
                 tag=_tag_ast(_tag_meta(name), ctx),
-                init=_analyze_form(value, ctx),
+                init=_analyze_value_form(value, ctx),
                 children=vec.v(INIT),
                 env=ctx.get_node_env(),
             )
@@ -3051,7 +3058,7 @@ def _loop_ast(form: ISeq, ctx: AnalyzerContext) -> Loop:
                 form=name,
                 name=name.name,
                 local=LocalType.LOOP,
-                init=_analyze_form(value, ctx),
+                init=_analyze_value_form(value, ctx),
                 env=ctx.get_node_env(),
             )
             binding_nodes.append(binding)
